@@ -18,7 +18,7 @@ use std::collections::BTreeMap;
 use std::task::{Context, Poll};
 use std::time::Duration;
 
-pub type Beh = gs::Behaviour;
+pub type Beh<D = gs::IdentityTransform> = gs::Behaviour<D>;
 
 #[derive(Clone, Copy, Debug, PartialEq, Eq, serde::Serialize, serde::Deserialize)]
 pub enum Kind {
@@ -53,8 +53,8 @@ pub enum Note {
     Left,
 }
 
-pub struct GsNode {
-    pub beh: Beh,
+pub struct GsNode<D = gs::IdentityTransform> {
+    pub beh: Beh<D>,
     /// live connections per peer, oldest first (the order of `PeerDetails::connections`)
     pub conns: BTreeMap<PeerId, Vec<Conn>>,
     next_conn: usize,
@@ -69,8 +69,8 @@ pub struct GsNode {
 
 pub const TEN_YEARS: Duration = Duration::from_secs(10 * 365 * 24 * 3600);
 
-impl GsNode {
-    pub fn new(beh: Beh) -> Self {
+impl<D: gs::DataTransform + Send + 'static> GsNode<D> {
+    pub fn new(beh: Beh<D>) -> Self {
         let mut n = GsNode { beh, conns: BTreeMap::new(), next_conn: 1, app_events: vec![], notes: vec![], dials: 0, other_to_swarm: vec![] };
         n.pump();
         n
